@@ -5,4 +5,5 @@ Extraction "../build/ml/C03/model.ml" run_log b_finish b_into_name b_append_orig
   check_abs check_rel chain_new label_from_slice
   name_from_chars rel_from_chars uncertain_from_chars display_name
   is_label_start n_split n_truncate n_range n_range_from n_parent n_into_relative n_into_absolute
-  abs_strip_suffix rel_strip_suffix parse_ref mlen parsed_to_name parsed_flatten uncertain_check chain_new_uncertain owned_label_from_chars display_rel ends_with starts_with n_chain_root unc_chain.
+  abs_strip_suffix rel_strip_suffix parse_ref mlen parsed_to_name parsed_flatten uncertain_check chain_new_uncertain owned_label_from_chars display_rel ends_with starts_with n_chain_root unc_chain chain3 serde_de_rel display_uncertain b_from_builder name_parse
+  const_root const_root_slice const_empty const_wildcard const_empty_slice const_wildcard_slice.
